@@ -70,9 +70,11 @@ NodeAttributeNamespaceInfo traverseTreeForAttributeNamespaces(const XmlNodePtr &
  * in the defined namespace map are recorded as missing namespaces.
  *
  * @param node The root node of the tree to traverse.
+ * @param includeSiblings Whether the siblings that follow @p node (and their
+ * children) are traversed as well.
  * @return @c XmlNamespaceMap of undefined namespaces.
  */
-XmlNamespaceMap traverseTreeForUndefinedNamespaces(const XmlNodePtr &node);
+XmlNamespaceMap traverseTreeForUndefinedNamespaces(const XmlNodePtr &node, bool includeSiblings = true);
 
 /**
  * @brief Remove all the CellML 1.0 or CellML 1.1 namespaces from the given node and its children.
